@@ -4,7 +4,8 @@ import json
 import os
 import subprocess
 
-REPLAY_DIR = '/verif/replay'
+_VERIF = os.path.dirname(os.path.dirname(os.path.abspath(__file__)))
+REPLAY_DIR = os.path.join(_VERIF, 'replay')
 TARGET = os.environ.get('VERIF_REPLAY_TARGET', '/var/tmp/vpverif-target-replay')
 _built = {}
 
@@ -38,7 +39,7 @@ def run(ops, profile='dev', timeout=120):
     return json.loads(out[k + len('@@RESULT@@'):] if k >= 0 else out)
 
 
-TANTIVY_DIR = '/verif/replay_tantivy'
+TANTIVY_DIR = os.path.join(_VERIF, 'replay_tantivy')
 TANTIVY_TARGET = os.environ.get('VERIF_REPLAY_TANTIVY_TARGET', '/var/tmp/vpverif-target-replay-tantivy')
 
 
